@@ -203,7 +203,7 @@ def _shard_main(conn, args):
         _watchdog(conn, CASE_LIMIT_S)
         res = _run_shard_inner(*args)
     except BaseException:
-        res = {'fatal': traceback.format_exc(), 'shard': args[-2]}
+        res = {'fatal': traceback.format_exc(), 'shard': args[4]}
     try:
         conn.send(res)
     except Exception:
@@ -258,7 +258,7 @@ def run_shards(jobs):
             try:
                 msg = conn.recv()
             except (EOFError, OSError):
-                msg = {'fatal': 'shard process %s exited without a result (killed / out of memory?)' % (args[-2],), 'shard': args[-2]}
+                msg = {'fatal': 'shard process %s exited without a result (killed / out of memory?)' % (args[4],), 'shard': args[4]}
             conn.close()
             pr.join(10)
             if pr.is_alive(): pr.kill()
@@ -266,7 +266,7 @@ def run_shards(jobs):
     return results
 
 
-def _run_shard_inner(modname, tier, seed, phase_index, shard, nshards):
+def _run_shard_inner(modname, tier, seed, phase_index, shard, nshards, scale=1.0):
     import importlib
     module = importlib.import_module(modname)
     findings = load_findings(module.ID)
@@ -309,7 +309,9 @@ def _run_shard_inner(modname, tier, seed, phase_index, shard, nshards):
         phase_name = phase.name; extra = {}
         fn = phase.check or module.check
         if phase.kind == 'enumerate':
-            for case in phase.cases(shard, nshards):
+            stride = max(1, int(round(1.0 / scale))) if scale < 1 else 1
+            for ci, case in enumerate(phase.cases(shard, nshards)):
+                if ci % stride: continue
                 try:
                     run_case(case, ctx, fn)
                 except Violation as v:
@@ -321,7 +323,7 @@ def _run_shard_inner(modname, tier, seed, phase_index, shard, nshards):
         else:
             import hypothesis
             from hypothesis import given, settings, HealthCheck, seed as hseed
-            n = max(1, phase.max_examples // nshards)
+            n = max(1, int(phase.max_examples * scale) // nshards)
             @hseed(derive_seed(seed, module.ID, phase.name, shard))
             @settings(max_examples=n, database=None, deadline=None, derandomize=False,
                       report_multiple_bugs=False, suppress_health_check=list(HealthCheck),
@@ -384,7 +386,7 @@ def main(module, argv=None):
     ap.add_argument('--tier', default=os.environ.get('VERIF_TIER', 'quick'))
     ap.add_argument('--replay')
     ap.add_argument('--phase', help='run only phases whose name contains this')
-    ap.add_argument('--scale', type=float, default=float(os.environ.get('VERIF_SCALE', '1')))
+    ap.add_argument('--scale', type=float, default=float(os.environ.get('VERIF_SCALE', '1')), help='multiply case counts (smoke tests); enumerated phases take every 1/scale-th case and are then not exhaustive')
     ns = ap.parse_args(argv)
     tier = ns.tier if ns.tier in ('quick', 'thorough') else 'quick'
     seed = int(os.environ.get('VERIF_SEED', '0') or 0)
@@ -451,7 +453,7 @@ def main(module, argv=None):
             if not phase.exhaustive:
                 exhaustive_all = False
         tp = time.time()
-        results = run_shards([(module.__name__, tier, seed, pi, k, nsh) for k in range(nsh)])
+        results = run_shards([(module.__name__, tier, seed, pi, k, nsh, ns.scale) for k in range(nsh)])
         pev = 0
         nconfirmed = 0
         for r in results:
@@ -489,7 +491,7 @@ def main(module, argv=None):
             total['harness_errors'] += r['harness_errors']
             total['inconclusive'] += r['inconclusive']
         total['phases'][name] = {'kind': kind, 'evaluations': pev, 'wall_s': round(time.time() - tp, 1),
-                                 'exhaustive': bool(phase is not None and phase.exhaustive)}
+                                 'exhaustive': bool(phase is not None and phase.exhaustive and ns.scale >= 1)}
         print('phase %-28s %-10s evals=%-8d %.1fs' % (name, kind, pev, time.time() - tp))
         sys.stdout.flush()
 
@@ -525,7 +527,7 @@ def main(module, argv=None):
             'discarded': dict(total['discarded']),
             'phases': total['phases'],
             'regression_replays': nrep,
-            'exhaustive': bool(exhaustive_all and phases),
+            'exhaustive': bool(exhaustive_all and phases and ns.scale >= 1),
             'known_findings_reported': sorted(findings),
         },
         'assumptions': list(getattr(module, 'ASSUMPTIONS', [])),
